@@ -65,12 +65,26 @@ def shl(x, k):
     return to_int(x) * pow2(k)
 
 
+def div_pow2(x, k):
+    """x / 2^k, exact simplification when x is syntactically E * 2^m with m >= k"""
+    x = to_int(x)
+    if z3.is_mul(x) and x.num_args() == 2:
+        for i in (0, 1):
+            c, e = x.arg(i), x.arg(1 - i)
+            if z3.is_int_value(c):
+                v = c.as_long()
+                if v > 0 and v & (v - 1) == 0 and v.bit_length() - 1 >= k:
+                    m = v.bit_length() - 1 - k
+                    return e if m == 0 else e * (2 ** m)
+    return x / (2 ** k)
+
+
 def shr(x, k):
     if not is_sym(k):
         if k < 0:
             raise ValueError('negative shift count')
         _fired('shr-const')
-        return to_int(x) / (2 ** k)      # SMT div == floor div for positive divisor
+        return div_pow2(x, k)      # SMT div == floor div for positive divisor
     _fired('shr-sym')
     return to_int(x) / pow2(k)
 
